@@ -35,6 +35,25 @@ Theorem C13_parse_accepts_iff :
     (exists v, parse fparse s = Ok v) <-> (exists v, JText fparse s v /\ depth v <= MAX_DEPTH).
 Proof. exact parse_accepts_iff. Qed.
 
+(* --- the same "if and only if" against the FULL RFC 8259 syntax (JTextG ... true: unpaired surrogate escapes admitted):
+       accepted  <->  RFC 8259 JSON-text nested no deeper than MAX_DEPTH  and  no unpaired surrogate escape in the text
+       (no_lone_surrogate_escape is a syntactic scan of the text, JsonSpec.v) --- *)
+Theorem C13_parse_accepts_iff_rfc :
+  forall (F : Type) (fparse : str -> option F) (s : str),
+    (exists v, parse fparse s = Ok v) <->
+    ((exists v, JTextG F fparse true s v /\ depth v <= MAX_DEPTH) /\ no_lone_surrogate_escape s = true).
+Proof. exact parse_accepts_iff_rfc. Qed.
+
+(* the sub-language JText is exactly: full syntax + no unpaired surrogate escape (same nesting depth) *)
+Theorem C13_text_iff_syntax_without_lone_surrogates :
+  forall (F : Type) (fparse : str -> option F) (s : str),
+    (exists v, JText fparse s v) <-> (JSyntax fparse s /\ no_lone_surrogate_escape s = true).
+Proof.
+  intros F fparse s. split.
+  - intros (v & H). split; [exact (JText_is_JSyntax F fparse s v H)|exact (JText_no_lone F fparse s v H)].
+  - intros [(v & H) Hs]. destruct (JSyntax_no_lone_JText F fparse s v H Hs) as (v' & H' & _). exists v'. exact H'.
+Qed.
+
 (* --- same statements for Value::parse_max_depth with an arbitrary limit --- *)
 Theorem C13_parse_max_depth_sound :
   forall (F : Type) (fparse : str -> option F) (maxd : N) (s : str) (v : value F),
@@ -158,6 +177,14 @@ Example C13_lone_surrogate_rejected :
   parse fp_any [0x5b; 0x31; 0x2c; 0x5d] = Err E_COMMA.
 Proof. split; vm_compute; reflexivity. Qed.
 
+(* the scan: "\uD834\uDD1E" passes, "\uD834" and "\uDD1E\uD834" do not; text without escapes passes *)
+Example C13_scan_examples :
+  no_lone_surrogate_escape [0x22; 0x5c; 0x75; 0x44; 0x38; 0x33; 0x34; 0x5c; 0x75; 0x44; 0x44; 0x31; 0x45; 0x22] = true /\
+  no_lone_surrogate_escape [0x22; 0x5c; 0x75; 0x44; 0x38; 0x33; 0x34; 0x22] = false /\
+  no_lone_surrogate_escape [0x22; 0x5c; 0x75; 0x44; 0x44; 0x31; 0x45; 0x5c; 0x75; 0x44; 0x38; 0x33; 0x34; 0x22] = false /\
+  no_lone_surrogate_escape [0x5b; 0x31; 0x2c; 0x22; 0x5c; 0x5c; 0x75; 0x44; 0x38; 0x33; 0x34; 0x22; 0x5d] = true.
+Proof. repeat split; vm_compute; reflexivity. Qed.
+
 (* serialiser hypotheses are satisfiable: F := literal text, fdisplay := id, finite := "is a JSON number"; and a round trip
    through serialize_pretty 2 computed inside Coq *)
 Example C13_roundtrip_instance :
@@ -189,6 +216,8 @@ Qed.
 Print Assumptions C13_parse_sound.
 Print Assumptions C13_parse_complete.
 Print Assumptions C13_parse_accepts_iff.
+Print Assumptions C13_parse_accepts_iff_rfc.
+Print Assumptions C13_text_iff_syntax_without_lone_surrogates.
 Print Assumptions C13_parse_max_depth_sound.
 Print Assumptions C13_parse_max_depth_complete.
 Print Assumptions C13_denotation_unique.
@@ -206,5 +235,6 @@ Print Assumptions C13_legacy_hex_sign_refuted.
 Print Assumptions C13_fixed_rejects.
 Print Assumptions C13_example_document.
 Print Assumptions C13_lone_surrogate_rejected.
+Print Assumptions C13_scan_examples.
 Print Assumptions C13_roundtrip_instance.
 Print Assumptions C13_depth_limit_exact.
